@@ -382,12 +382,26 @@ func execC25(c *hlib.Ctx, tok []string) string {
 		return "bad-op"
 	}
 	want, mixed, custom := expectedTokens(req)
-	raw, err := encodeCapnp(req)
+	var raw []byte
+	var err error
+	pmsg := ""
+	func() {
+		defer func() {
+			if r := recover(); r != nil {
+				pmsg = fmt.Sprint(r)
+			}
+		}()
+		raw, err = encodeCapnp(req)
+	}()
+	if pmsg != "" {
+		c.Violation("encode-panics", "encoding the request panics: "+pmsg)
+		return "panic"
+	}
 	if err != nil {
+		c.Violation("encode-error", "encoding the request fails: "+err.Error())
 		return "encode-error:" + err.Error()
 	}
 	var got []string
-	pmsg := ""
 	func() {
 		defer func() {
 			if r := recover(); r != nil {
